@@ -41,7 +41,7 @@ def generate(prng, tier, index):
                 "clique": prng.choice((1100, 1150, 1200)), "pendants": prng.randrange(1, 4), "ops": ["same"],
                 "names_prefix": 1}
     big = tier == "thorough" or prng.random() < 0.1
-    ntop = prng.randrange(1, 4)
+    ntop = prng.randrange(1, 4) if prng.random() > 0.05 else prng.randrange(4, 7)
     topos = [dict(t) for t in prng.sample(netsim.TOPO_POOL, ntop)]
     source = prng.choice(("direct", "direct", "generator"))
     n = prng.randrange(4, 41 if big else 15)
